@@ -39,10 +39,15 @@ FILE_POOL = ["f1.py", "f22.py", "fx.py", "src/main.c", "src/abc.c", "src/a/c.c",
              "data/\\raw/sub/file2.bin", "data/\\x.bin", "sta*/inner.txt", "x.json", "q?.txt", "qa.txt"]
 
 
+PATTERN_GROUPS = [("po/*.po", "po/*.pot"), ("*.h", "*.h.in"), ("docs/*.md", "docs/*"), ("src/*.c", "src/*.c.orig", "src/*"),
+                  ("*.po", "*.pot", "*.pot.bak")]
+GROUP_FILES = ["po/demo.po", "po/demo.pot", "src/config.h", "src/config.h.in", "src/main.c.orig", "po/old.pot.bak"]
+
+
 def gen_case(seed, tier, index=0):
     rng = Rng(seed, "c17")
     files = []
-    names = rng.sample(FILE_POOL, rng.randint(3, 9))
+    names = rng.sample(FILE_POOL, rng.randint(3, 9)) + rng.sample(GROUP_FILES, rng.randint(0, 4))
     for n in names:
         k = rng.randrange(4)
         if k == 0:
@@ -55,6 +60,9 @@ def gen_case(seed, tier, index=0):
     paras = []
     for _ in range(rng.randint(1, 4)):
         pats = rng.sample(PATTERN_POOL, rng.randint(1, 3))
+        if rng.chance(0.25):
+            # several patterns in one paragraph where one matches a proper prefix of what another matches
+            pats = list(rng.pick(PATTERN_GROUPS))
         cr = [f"{rng.pick(['2019', '2020-2022', ''])} {rng.pick(G.HOLDERS)}".strip() for _ in range(rng.randint(1, 3))]
         p = {"files": pats if len(pats) > 1 else pats[0], "copyright": cr if len(cr) > 1 else cr[0],
              "license": rng.pick(G.VALID + ["MIT or 0BSD", "LicenseRef-Custom", "GPL-3.0-or-later WITH Classpath-exception-2.0"])}
